@@ -173,6 +173,24 @@ static void builders(int L, const char *domain, const char *srvdomain, int codec
 		if (r != sent || memcmp(out, data, sent))
 			viol("server-extracts-different-data", "send_chunk L=%d domain %zu chars %s size %d: sentlen %d, server extracts %d", L, strlen(domain), CN[codec], sizes[si], sent, r);
 		if (cmd5[0] != '3') viol("chunk-header", "first header char %c is not the hex userid", cmd5[0]);
+		/* histories: the chunk is re-sent (the 1 s timeout of client_tunnel()) after the client has built some other message
+		 * in between - a ping for a downstream fragment that arrived meanwhile, a fragment-size request...  The re-sent name
+		 * must still carry the chunk (seeded C08-h: a name buffer shared between the builders, not rebuilt on a re-send) */
+		for (int between = 0; between < 5; between++) {
+			char login[16]; memset(login, 0x33, 16);
+			if (between == 1) ca_w_send_ping(21);
+			else if (between == 2) ca_w_send_set_downstream_fragsize(21, 200);
+			else if (between == 3) ca_w_send_fragsize_probe(21, 700);
+			else if (between == 4) { ca_w_send_ping(21); ca_w_send_login(21, login, 16); }
+			caplen = -1;
+			ca_w_resend_chunk(21);
+			xp_count(K_BUILDERS, 1);
+			if (captured_name(name, sizeof name, L, domain, "send_chunk (re-send)")) continue;
+			int sent2 = ca_w_outpkt()->sentlen;
+			int r2 = server_extract(name, 5, srvdomain, codec, out, sizeof out, cmd5);
+			if (sent2 != sent || r2 != sent || memcmp(out, data, sent))
+				viol("server-extracts-different-data", "re-sent chunk after %s, L=%d domain %zu chars %s size %d: first transmission carried %d bytes, re-send says %d, server extracts %d%s", between == 0 ? "nothing" : between == 1 ? "a ping" : between == 2 ? "a fragment-size request" : between == 3 ? "a fragment-size probe" : "a ping and a login", L, strlen(domain), CN[codec], sizes[si], sent, sent2, r2, r2 == sent && memcmp(out, data, sent) ? " (other bytes)" : "");
+		}
 	}
 	/* ping / version / login / set-fragsize: base32 payload after 1 command char */
 	struct { const char *what; char cmd; int plen; } M[4] = { { "send_ping", 'p', 4 }, { "send_version", 'v', 6 }, { "send_login", 'l', 19 }, { "send_set_downstream_fragsize", 'n', 5 } };
